@@ -4,8 +4,9 @@
    Ndense >= 1, expansion order (prefactor list) and number of incremental steps.  [step] is one dense step of
    the density-matrix propagator for a generator G (with an optional map Dm applied after it), as in Model/C02.v. *)
 From Coq Require Import ZArith List Bool Arith.
+From Coq Require Import QArith.
 From QV Require Import Base.Alg Base.Sums Base.Mat Base.Tens Base.TensId Base.Taylor Base.TaylorG Model.C01 Model.C02 Model.C08
-     Proofs.TensAlg Proofs.C02 Proofs.C08.
+     Model.C08obj Proofs.TensAlg Proofs.C02 Proofs.C08 Proofs.C08objgen.
 Import ListNotations.
 
 (* data[i] is the i-th power of Udt: the identity at time zero, and U(t_i + t_j) = U(t_i) U(t_j) on the grid *)
@@ -85,3 +86,68 @@ Proof.
   split; [intros HH HT x; now apply G_tensor_dag|intros HE x; now apply dephase_dag].
 Qed.
 Print Assumptions c08_concrete_generator_qualifies.
+
+(* ---------------- bookkeeping of the object (Model/C08obj.v; proofs in Proofs/C08objgen.v) ---------------- *)
+
+(* incremental mode with save=True: after k calls the counter is k, the table holds at every index 1..k exactly the value the
+   in-place mode has after that many calls (hence, by c08_incremental_eq_all_at_once, the j-th power), the identity at 0 and
+   the untouched initial zeros beyond k *)
+Theorem c08_saved_incremental_table : forall (R : StarRing) n (Udt : @tens R) k,
+  fst (jit_run_save n k Udt) = k /\
+  (forall j, (1 <= j <= k)%nat -> snd (jit_run_save n k Udt) j = snd (jit_run n j Udt)) /\
+  snd (jit_run_save n k Udt) 0%nat = tid /\
+  (forall j, (k < j)%nat -> snd (jit_run_save n k Udt) j = init_table j).
+Proof. intros R n. exact (jit_run_save_spec n). Qed.
+Print Assumptions c08_saved_incremental_table.
+
+(* apply over an axis is apply at each of its indices *)
+Theorem c08_apply_over_axis_pointwise : forall (R : StarRing) n (data : nat -> @tens R) len rho j, (j < len)%nat ->
+  nth j (apply_axis n data len rho) (fun _ _ => r0 R) = tapply n (data j) rho.
+Proof. intros R n. exact (apply_axis_nth n). Qed.
+Print Assumptions c08_apply_over_axis_pointwise.
+
+(* apply(t, .) and at(t) address the grid through TimeAxis.locate: in exact arithmetic a grid time t_i, and every time of the
+   half-open interval [t_i, t_i + step), is located at index i *)
+Theorem c08_grid_time_located_at_its_index : forall (start step : Q) (length i : nat), (0 < step)%Q -> (i < length)%nat ->
+  locate start step length (start + inject_Z (Z.of_nat i) * step)%Q = Some i /\
+  (forall x : Q, (0 <= x)%Q -> (x < step)%Q -> locate start step length (start + inject_Z (Z.of_nat i) * step + x)%Q = Some i).
+Proof. intros start step length i Hs Hi. split; [exact (locate_grid start step length i Hs Hi)|exact (fun x => locate_interval start step length i x Hs Hi)]. Qed.
+Print Assumptions c08_grid_time_located_at_its_index.
+
+(* set_dense_dt(N): the dense axis has N+1 points and N of its steps make one step of the time grid *)
+Theorem c08_dense_axis_covers_one_step : forall (step : Q) (N : nat), (1 <= N)%nat ->
+  fst (dense_axis step N) = S N /\ (snd (dense_axis step N) * inject_Z (Z.of_nat N) == step)%Q.
+Proof. exact dense_axis_covers. Qed.
+Print Assumptions c08_dense_axis_covers_one_step.
+
+(* re-use of one object: whatever calculate / set_dense_dt / apply / at calls came before, set_dense_dt(N) followed by calculate()
+   leaves the same data (and RWA flag) as on the fresh object - for every semantics of the operations that reads and writes
+   only the fields the model lists for them (this is what the static tie establishes for the current source) *)
+Theorem c08_reuse_equals_fresh : forall (V : Type) (sem : op -> ostate V -> ostate V),
+  (forall o, respects V (sem o) (op_reads o) (op_writes o)) ->
+  forall (h : list op) (N : nat) (s : ostate V),
+  agree V [FData; FInRwa] (sem OCalculate (sem (OSetDense N) (run V sem h s))) (sem OCalculate (sem (OSetDense N) s)).
+Proof. exact reuse_equals_fresh. Qed.
+Print Assumptions c08_reuse_equals_fresh.
+
+(* non-vacuity: a semantics that respects the effect signatures and in which the data do depend on the dense setting *)
+Definition toy_sem (o : op) (s : ostate nat) : ostate nat :=
+  match o with
+  | OCalculate => fun f => match f with FData => (s FDenseTime + s FHam)%nat | FInRwa => s FHam | _ => s f end
+  | OSetDense N => fun f => match f with FDenseTime => (N + s FTime)%nat | _ => s f end
+  | OApply => s
+  | OAt => s
+  end.
+Example c08_reuse_hypothesis_inhabited :
+  (forall o, respects nat (toy_sem o) (op_reads o) (op_writes o)) /\
+  toy_sem OCalculate (toy_sem (OSetDense 2) (fun _ => 0%nat)) FData <> toy_sem OCalculate (toy_sem (OSetDense 3) (fun _ => 0%nat)) FData.
+Proof.
+  split; [|cbn; discriminate].
+  intros o; split.
+  - intros s f Hf. destruct o; cbn in *; destruct f; try reflexivity; exfalso; apply Hf; tauto.
+  - intros s s' Ha f Hf. destruct o; cbn in Hf.
+    + destruct Hf as [<-|[<-|[]]]; cbn; rewrite ?(Ha FDenseTime), ?(Ha FHam) by (cbn; tauto); reflexivity.
+    + destruct Hf as [<-|[]]. cbn. rewrite (Ha FTime) by (cbn; tauto). reflexivity.
+    + destruct Hf.
+    + destruct Hf.
+Qed.
